@@ -168,7 +168,10 @@ def check(ctx):
     allk = set()
     for v in keepers.values():
         allk |= v
-    same_keeper = all(v == allk for v in keepers.values()) and len(keepers) >= 2
+    # (no collector object at all -- the parsers return the value -- is agreement too;
+    # that at most one line is ever decoded per file is R20.5)
+    same_keeper = not keepers or \
+        (all(v == allk for v in keepers.values()) and len(keepers) >= 2)
     ctx.ob('R20.1', 'the parsed date is kept by the same collector in list, restore and empty',
            same_keeper, construct='DeletionDate collector', text=str(sorted(allk)),
            message='the readers keep the parsed DeletionDate through different code: %s -- '
